@@ -7,8 +7,8 @@ var spacePkgs = []string{"srgb", "adobergb", "prophotorgb", "displayp3"}
 func init() {
 	rerr := sym.Config{Float: sym.FloatRErr, OneShotAsserts: true}
 	Register(&Spec{
-		ID:    "C03",
-		Level: "model_checking",
+		ID:          "C03",
+		Level:       "model_checking",
 		Explanation: "per colour space, symbolic execution of Color.ToXYZ and ColorFromXYZ in real arithmetic with one rounding-error variable per float32 operation (|e| <= 2^-24 |x| + 2^-150; |x| resolved by interval analysis: linear arithmetic): for all RGB in [0,1]^3 (and [-1,2]^3, no clamping) ToXYZ is within 1e-6 (3e-6) of M_ref*RGB and ColorFromXYZ within 2e-6 (6e-6) of M_ref^-1*XYZ, where M_ref is built in the harness from the declared chromaticities by the textbook construction (independent of prism's ciexyz code); both round trips return the input within 2e-6 (1.4e-5 on the wide box = 2e-6*(1+|c|_1) at its maximum); ground: the declared primaries and white equal the published values at their published precision (5e-5), (1,1,1) maps to Y=1 and the declared white, unit primaries to their declared chromaticities within 1e-6",
 		Bounds: func(tier string) map[string]interface{} {
 			return map[string]interface{}{"spaces": "sRGB, Adobe RGB (1998), ProPhoto RGB, Display P3", "boxes": "[0,1]^3 and [-1,2]^3 as reals (superset of all float32 triples in the box)", "outside": "values outside [-1,2]^3, overflow/NaN inputs, FMA-contracting architectures"}
